@@ -39,7 +39,8 @@ Inductive gv :=
 | VSlice (l : option (list gv))            (* None = nil *)
 | VMap (m : option (list (str * gv)))       (* None = nil; keys distinct *)
 | VStruct (fs : list gv)
-| VIface (x : option gv).                   (* nil, or the dynamic value (VInt = int64, VStr = string) *)
+| VIface (x : option gv)                    (* nil, or the dynamic value (VInt = int64, VStr = string, VDyn = a struct held by value) *)
+| VDyn (t : ty) (v : gv).                   (* inside VIface only: a value of the (struct) type t *)
 
 Record dopts := mkDopts {
   o_map_value_reset : bool;
@@ -97,12 +98,29 @@ Fixpoint peel (t : ty) (d : gv) : ty * gv * (gv -> gv) :=
   | _ => (t, d, fun x => x)
   end.
 
+(* "When decoding into a non-nil interface{} value, the mode of encoding is based on the type of
+   the value": an interface holding a struct by value is decoded INTO that struct (the held value
+   is the destination, so what the stream does not mention stays), unless InterfaceReset.
+   [dyn]: whether destinations may hold structs in interfaces at all (the theorems of
+   Properties/C19.v are stated for dyn = false, i.e. interfaces holding nil / int64 / string) *)
+Definition unbox (dyn : bool) (o : dopts) (p : ty * gv * (gv -> gv)) : ty * gv * (gv -> gv) :=
+  match dyn with
+  | false => p
+  | true =>
+    let '(b, d, wrap) := p in
+    match b, d with
+    | TIface, VIface (Some (VDyn (TStruct fs) v)) =>
+      if o_iface_reset o then p else (TStruct fs, v, fun x => wrap (VIface (Some (VDyn (TStruct fs) x))))
+    | _, _ => p
+    end
+  end.
+
 (* merge o t d it : the destination d of type t after decoding the stream item it into it *)
-Fixpoint merge (o : dopts) (t : ty) (d : gv) (it : item) {struct it} : res gv :=
+Fixpoint merge_x (dyn : bool) (o : dopts) (t : ty) (d : gv) (it : item) {struct it} : res gv :=
   match it with
   | INil => Ok (zero_of t)                                   (* nil means zero, any kind *)
   | _ =>
-    let '(b, d, wrap) := peel t d in
+    let '(b, d, wrap) := unbox dyn o (peel t d) in
     do r <-
     match b with
     | TInt | TStr => scalar_of b it
@@ -117,7 +135,7 @@ Fixpoint merge (o : dopts) (t : ty) (d : gv) (it : item) {struct it} : res gv :=
                     | [] => Ok []
                     | x :: r =>
                       let cur := match old with c :: _ => if o_slice_elem_reset o then zero_of e else c | [] => zero_of e end in
-                      do y <- merge o e cur x ;;
+                      do y <- merge_x dyn o e cur x ;;
                       do ys <- go r (tl old) ;; Ok (y :: ys)
                     end) l old ;;
         Ok (VSlice (Some xs))
@@ -137,7 +155,7 @@ Fixpoint merge (o : dopts) (t : ty) (d : gv) (it : item) {struct it} : res gv :=
                                   | Some c => if o_map_value_reset o then zero_of e else c
                                   | None => zero_of e
                                   end in
-                       do y <- merge o e cur x ;; go r (assoc_set key y m)
+                       do y <- merge_x dyn o e cur x ;; go r (assoc_set key y m)
                      | _ => Err EBadDesc
                      end
                    end) kvs old ;;
@@ -156,7 +174,7 @@ Fixpoint merge (o : dopts) (t : ty) (d : gv) (it : item) {struct it} : res gv :=
                       | IStr key =>
                         match index_of_name key fs 0 with
                         | Some i =>
-                          do y <- merge o (snd (nth i fs ([], TInt))) (nth i xs (VInt 0)) x ;;
+                          do y <- merge_x dyn o (snd (nth i fs ([], TInt))) (nth i xs (VInt 0)) x ;;
                           go r (set_nth xs i y)
                         | None => go r xs                      (* unknown keys are skipped *)
                         end
@@ -170,7 +188,7 @@ Fixpoint merge (o : dopts) (t : ty) (d : gv) (it : item) {struct it} : res gv :=
                     | [] => Ok xs
                     | x :: r =>
                       if i <? length fs then
-                        do y <- merge o (snd (nth i fs ([], TInt))) (nth i xs (VInt 0)) x ;;
+                        do y <- merge_x dyn o (snd (nth i fs ([], TInt))) (nth i xs (VInt 0)) x ;;
                         go r (S i) (set_nth xs i y)
                       else go r (S i) xs
                     end) l 0 cur ;;
@@ -185,3 +203,5 @@ Fixpoint merge (o : dopts) (t : ty) (d : gv) (it : item) {struct it} : res gv :=
       end
     end ;; Ok (wrap r)
   end.
+
+Definition merge : dopts -> ty -> gv -> item -> res gv := merge_x false.
